@@ -991,6 +991,32 @@ pub fn c10(ix: &Index) -> Vec<Viol> {
                     format!("a LocalCollector scope on vt{} (depth {}) recorded {} local spans, its collected set holds {}: {:?} vs {:?}", h.scopes[set.scope].vt, h.scopes[set.scope].depth, want.len(), got.len(), want.iter().take(4).collect::<Vec<_>>(), got.iter().take(4).collect::<Vec<_>>()),
                 ));
             }
+            // ... and exactly the local events added inside it through any entry point: those
+            // added while one of its local spans was open sit on a record of the set
+            let mut must: Vec<&str> = Vec::new();
+            let mut may: HashSet<&str> = HashSet::new();
+            for (i, a) in h.atts.iter().enumerate() {
+                if a.scope != Some(set.scope) || !matches!(a.route, Route::Local) {
+                    continue;
+                }
+                if let AKind::Event { name, .. } = &a.kind {
+                    may.insert(name.as_str());
+                    if matches!(a.target, ARef::Local(_)) && !h.overflow_atts.contains(&i) {
+                        must.push(name.as_str());
+                    }
+                }
+            }
+            let got: HashSet<&str> = set.snapshot_events.iter().map(|s| s.as_str()).collect();
+            if let Some(m) = must.iter().find(|m| !got.contains(**m)) {
+                out.push(v(
+                    "C10",
+                    "collector-scope-event-lost",
+                    format!("a local event {:?} added inside a LocalCollector scope on vt{} while one of its local spans was open is not in the collected set ({} of {} events present)", m, h.scopes[set.scope].vt, must.iter().filter(|m| got.contains(**m)).count(), must.len()),
+                ));
+            }
+            if let Some(g) = got.iter().find(|g| !may.contains(**g)) {
+                out.push(v("C10", "collector-scope-foreign-event", format!("the set collected by a LocalCollector scope on vt{} holds an event {:?} that was not added inside that scope", h.scopes[set.scope].vt, g)));
+            }
         }
     }
     // property locations (span properties only; properties of events are not probes)
